@@ -296,3 +296,111 @@ two_harness! { #[kani::unwind(7)] fn twin_g_two() {
     core::mem::forget(b);
     finish!(19);
 } }
+
+// -----------------------------------------------------------------------------------------
+// B is used and stopped by another thread WHILE A's reducer is in the middle of its backlog
+// (placed at a scheduling point of A's loop)
+// -----------------------------------------------------------------------------------------
+static mut B_ACTS: [u8; MAXA] = [0; MAXA];
+static mut B_DONE_AT: u8 = 0;
+static mut B_UNIT_RAN: bool = false;
+static mut B_DROP: bool = false;
+fn two_yield(kind: u8, obj: usize) {
+    if rt::at_placement(kind, obj) {
+        unsafe {
+            if let Some(b) = G2[1].as_ref() {
+                rt::IN_UNIT = true;
+                rt::in_ctx(rt::CTX_CLIENT, || {
+                    B_ACTS[1] = kani::any();
+                    core::mem::forget(StoreImpl::dispatch(b, B_ACTS[1]));
+                    if B_DROP {
+                        drop(DroppableStore::new(b.clone()));
+                    } else {
+                        b.stop();
+                    }
+                });
+                rt::IN_UNIT = false;
+                B_DONE_AT = rt::now();
+                B_UNIT_RAN = true;
+            }
+        }
+    }
+    rt::on_join(kind, obj);
+}
+pub fn two_yield_pub(kind: u8, obj: usize) {
+    two_yield(kind, obj)
+}
+
+fn two_placed(b_drop: bool, kind: u8, occ: u8) {
+    rt::reset_all();
+    script::reset();
+    crossbeam::hooks::set_native(Some(two_yield_pub), None);
+    unsafe {
+        PH2 = [[[PH0; 3]; MAXA]; 2];
+        SHARED_UNSUB = 0;
+        B_UNIT_RAN = false;
+        B_DROP = b_drop;
+    }
+    let ia: St = kani::any();
+    let ib: St = kani::any();
+    let a = mk2(0, 4, ia);
+    let b = mk2(1, 4, ib);
+    unsafe {
+        core::ptr::write(&mut G2[0], Some(a.clone()));
+        core::ptr::write(&mut G2[1], Some(b.clone()));
+        let mut j = 0;
+        while j < MAXA {
+            NEED2[0][j] = kani::any();
+            NEED2[1][j] = kani::any();
+            OUT2[0][j] = kani::any();
+            OUT2[1][j] = kani::any();
+            j += 1;
+        }
+    }
+    let mut xa = [0u8; MAXA];
+    xa[0] = kani::any();
+    xa[1] = kani::any();
+    core::mem::forget(StoreImpl::dispatch(&a, xa[0]));
+    core::mem::forget(StoreImpl::dispatch(&a, xa[1]));
+    unsafe {
+        B_ACTS[0] = kani::any();
+        core::mem::forget(StoreImpl::dispatch(&b, B_ACTS[0]));
+    }
+    // A is stopped; while its loop works through the backlog (inside the join), B gets one more
+    // action and is stopped / dropped by another thread
+    rt::arm(kind, 0, occ);
+    a.stop();
+    unsafe {
+        rt::PLACE_ARMED = false;
+    }
+    let a_done = rt::now();
+    chk!(19, unsafe { B_UNIT_RAN }, "VERIF: the operations on B ran at the placement");
+    let xb = unsafe { B_ACTS };
+    check_store(0, 2, &xa, ia, a_done);
+    check_store(1, 2, &xb, ib, unsafe { B_DONE_AT });
+    chk!(19, StoreImpl::dispatch(&a, 1).is_err() && StoreImpl::dispatch(&b, 1).is_err(), "both stores are closed, each by its own stop");
+    unsafe {
+        core::ptr::write(&mut G2[0], None);
+        core::ptr::write(&mut G2[1], None);
+    }
+    core::mem::forget(a);
+    core::mem::forget(b);
+    finish!(19);
+}
+macro_rules! two_placed_harness {
+    ($($name:ident = ($d:expr, $k:expr, $o:expr);)+) => { $(
+        harness! {
+            #[kani::stub(crate::store_impl::StoreImpl::do_reduce, crate::verif_kani::g_two::sum2_reduce)]
+            #[kani::stub(crate::store_impl::StoreImpl::do_effect, crate::verif_kani::g_two::sum2_effect)]
+            #[kani::stub(crate::store_impl::StoreImpl::do_notify, crate::verif_kani::g_two::sum2_notify)]
+            #[kani::stub(crossbeam::hooks::yield_point, crate::verif_kani::g_two::two_yield_pub)]
+            #[kani::unwind(7)]
+            fn $name() { two_placed($d, $k, $o); }
+        }
+    )+ };
+}
+two_placed_harness! {
+    g_two_b_stopped_while_a_between_actions = (false, crossbeam::hooks::TAKEN, 1);
+    g_two_b_dropped_while_a_before_first = (true, crossbeam::hooks::RECV, 0);
+    g_two_b_stopped_while_a_takes_marker = (false, crossbeam::hooks::TAKEN, 2);
+}
